@@ -118,6 +118,22 @@ pub fn check_connections(sc: &Scenario, tr: &Trace) -> Option<(String, String)> 
             }
         }
     }
+    // R5: a terminal that identified itself with the configured serial (any letter case) is used, not abandoned
+    for (k, evs) in &conns {
+        let Some(vi) = evs.iter().position(|e| e.dir == Dir::Vetted) else { continue };
+        if evs.iter().any(|e| matches!(e.dir, Dir::Fault(_))) {
+            continue;
+        }
+        let call = evs[vi].call;
+        let used_after = evs[vi..].iter().any(|e| e.dir == Dir::Rx && e.bytes != ACK);
+        let reconnected = tr.log.iter().any(|e| e.call == call && e.conn > *k && matches!(e.dir, Dir::Open | Dir::ConnectRefused | Dir::ConnectStalled));
+        if !used_after && reconnected && vi + 2 >= evs.iter().filter(|e| e.call == call).count().min(usize::MAX) {
+            return Some(("R5: a terminal that reported the configured serial is abandoned".into(), format!("connection {k}: vetted in call {call}, no command followed, but the client connected again")));
+        }
+        if !used_after && reconnected {
+            return Some(("R5: a terminal that reported the configured serial is abandoned".into(), format!("connection {k}: vetted in call {call}, no command followed, but the client connected again")));
+        }
+    }
     // R3b: after a fault on k, later commands arrive on a newer connection (implied by R3 + passivity) and that one starts with the handshake (R1)
     // R4: an exchange that completed normally keeps the connection; the next call reuses it without reconnecting
     for w in tr.calls.windows(2) {
@@ -215,7 +231,7 @@ pub fn run(ctx: &Ctx, id: &str) -> i32 {
         report.rule = "every public operation x (a) a one-shot silence at every terminal->client packet position (fault-free numbering), (b) a persistent silence at every distinct (exchange kind, packet) point incl. the handshake, (c) a connect that never resolves / always never resolves / is always refused; read_card_timeout 0..255 exhaustively with a terminal that stays silent for exactly its own read-card time-out and then answers 'abort 6C' 100 ms later (must be waited for: NoCardPresented); configuration extremes (password 0/999999, amount 0/10^12-1, transactions_max_num 0/usize::MAX, terminal id empty/non-numeric/8 digits, currency 0/9999). Time is tokio's paused clock. Oracle: every call returns before one virtual day and does not panic. Duplicate-free enumeration.".into();
         report.assumptions = vec!["watchdog = tokio::time::timeout of one virtual day around every public call; it can only fire when the client is parked without a timer of its own or its own timers exceed a day".into(), "only a collapsed (too short) read-card timeout is judged; the effective timeout is recorded".into()];
     }
-    let base_cfg = ClientCfg { max_tx: 1, ..ClientCfg::default() };
+    let base_cfg = ClientCfg { max_tx: 1, currency: 826, password: 471199, pre_amount: 3100, serial: "17fd1E3c".into(), ..ClientCfg::default() };
 
     // fault-free numbering of every operation
     let mut points: BTreeMap<Op, Vec<TxPoint>> = BTreeMap::new();
@@ -223,19 +239,18 @@ pub fn run(ctx: &Ctx, id: &str) -> i32 {
         let (sc, idx) = skeleton(op, &base_cfg);
         let tr = run_scenario(&sc, &schema);
         let all_ok = tr.calls.iter().all(|c| c.result.is_ok());
-        if !all_ok {
-            report.inconclusive(&format!("fault-free run of {op:?} does not succeed: {:?}", tr.calls.iter().map(|c| c.result.short()).collect::<Vec<_>>()));
+        let conn_problem = check_connections(&sc, &tr);
+        if let (Some((rule, what)), "C09") = (&conn_problem, id) {
+            report.violation(&format!("C09 {rule} [fault-free]"), what, case_json(&sc, &tr));
         }
-        if let Some((rule, what)) = check_connections(&sc, &tr) {
-            if id == "C09" {
-                report.violation(&format!("C09 {rule} [fault-free]"), &what, case_json(&sc, &tr));
-            }
+        if !all_ok && !(id == "C09" && conn_problem.is_some()) {
+            report.inconclusive(&format!("fault-free run of {op:?} does not succeed: {:?}", tr.calls.iter().map(|c| c.result.short()).collect::<Vec<_>>()));
         }
         let pts: Vec<TxPoint> = tr.tx_points.iter().filter(|p| p.call == idx).cloned().collect();
         report.extra.insert(format!("positions.{op:?}"), json!(pts.len()));
         points.insert(op, pts);
     }
-    if !report.inconclusive.is_empty() {
+    if !report.inconclusive.is_empty() || !report.violations.is_empty() {
         return report.finish();
     }
     let jobs: Vec<(Op, usize)> = OPS.iter().flat_map(|op| (0..points[op].len()).map(move |p| (*op, p))).collect();
